@@ -1,5 +1,6 @@
 """C11 -- derived data stays coherent; queries do not move objects
 (S1, S2, S3, P1, U1)."""
+from ..rules import misc_rules as MI
 from ..rules import numpy_rules as NP
 from ..rules import dtype_rules as DT
 from ..rules import proj_rules as P
@@ -33,8 +34,11 @@ def run(ctx):
     ctx.do(CA.rule_cls1, "ProjectiveObject")
     ctx.do(P.rule_fr1, accessors=False)
     ctx.do(P.rule_ts1)
+    ctx.do(MI.rule_sgn1, ["geometry_tools/hyperbolic.py", "geometry_tools/projective.py"])
     ctx.do(NP.rule_ord1, ["geometry_tools/projective.py", "geometry_tools/hyperbolic.py"])
     ctx.do(DT.rule_lk2, ["geometry_tools/projective.py"])
+    ctx.do(SH.rule_hom1, parts=("hyp",), only={
+        "TangentVector._compute_aux_data", "Segment._compute_aux_data"})
     ctx.do(SH.rule_sh3)
     ctx.do(SH.rule_sh7, only={
         "Polygon.flatten_to_unit", "Polygon.reshape", "Polygon.astype",
